@@ -17,7 +17,11 @@ RULE = ('cases = corpus + generated: kind=body (payload sizes {limit-1, limit, l
         '(multipart bodies of 1..5 parts, text and file parts, sizes around max_memfile_size; via '
         'FieldStorage.iter_items on the markup of MultipartMarkup and via Request.forms through WSGI; every WSGI-level '
         'case configures the application through the constructor, through app.setup(cfg) or through setup() '
-        'overriding constructor values; the model side '
+        'overriding constructor values, or uses a Request object directly with DefaultConfig / a plain dict (no '
+        'errors_map: the bare exceptions escape); earlier partial reads, copy() after the read, a second Request over '
+        'the same environ; JSON through Request.forms; repeated field names; uploads read block-wise through '
+        'BytesIOProxy; fragmented multipart bodies; the default configuration at its 100 KiB threshold; kind=seq: '
+        '3..7 requests on two shared application objects with different limits; the model side '
         'gets the raw body and boundary and runs its own scanner and field layer). thorough: all '
         'payload sizes 0..limit+buf+2 x limits 0..6 x buffers 3..5 x both framings x schedules {full, 1-byte, 2-byte}. '
         'non-trivial = a limit or threshold lies within [size-buf-1, size+buf+1] (the case is near an edge) and at least '
@@ -44,6 +48,8 @@ def chunk_encode(rng, payload, buf):
         n = rng.choice([1, 2, 3, 5, buf, buf + 1, 2 * buf + 1, len(payload) - i])
         n = max(1, min(n, len(payload) - i))
         line = b'%x\r\n' % n
+        if len(line) + 4 <= buf and rng.random() < 0.2:
+            line = b'%X;e=1\r\n' % n                       # a chunk extension
         if len(line) > buf:
             n = min(n, 15)
             line = b'%x\r\n' % n
@@ -92,7 +98,18 @@ def gen_body(rng, kind='body'):
     if chunked:
         data, layout = chunk_encode(rng, payload, buf)
         cl = -1
-        if rng.random() < 0.06:
+        if kind == 'body' and rng.random() < 0.08:
+            # a malformed chunked body among the size cases: cut short, bad size digits, missing terminator
+            r = rng.random()
+            if r < 0.5:
+                data = data[:rng.randrange(0, max(len(data) - 5, 1))]
+            elif r < 0.75 or not layout:
+                data = b'zz\r\n' + data
+            else:
+                t = layout[0][2]
+                data = data[:t] + b'XY' + data[t + 2:]
+            expect = 'reject'
+        elif rng.random() < 0.06 and ctype != 'json':      # (a cut JSON text is C12's business: 400)
             cl = rng.randrange(0, size + 3)        # both headers present: correspondence only
             expect = 'any'
     else:
@@ -116,7 +133,17 @@ def gen_body(rng, kind='body'):
              sched=gen_sched(rng, len(data)), via=via, payload_len=len(payload), layout=layout,
              ctype=ctype, expect=expect)
     if via != 'func':
-        c['conf'] = rng.choice(['ctor', 'ctor', 'setup', 'setup', 'setup_over'])
+        if rng.random() < 0.2:
+            # the Request object used directly: with DefaultConfig (errors_map present) or a plain dict (absent)
+            c['inner'] = {'gbs': 'gbs', 'forms': 'forms'}.get(via)
+            c['via'] = 'request'
+            c['rconf'] = rng.choice(['default_config', 'raw_dict'])
+        else:
+            c['conf'] = rng.choice(['ctor', 'ctor', 'setup', 'setup', 'setup_over'])
+        if rng.random() < 0.3:
+            c['pre'] = [rng.choice(['body_first', 'copy_after', 'second']) for _ in range(rng.randrange(1, 3))]
+        if kind == 'text' and ctype == 'json' and via == 'forms' and rng.random() < 0.5:
+            c['inner'] = 'forms_json'           # JSON through Request.forms / POST instead of Request.json
     return c
 
 
@@ -149,11 +176,13 @@ def gen_budget(rng):
         is_file = rng.random() < 0.35
         size = rng.choice([0, 1, 5, 20, buf // 2, buf, rng.randrange(0, 3 * buf)]) if not is_file else \
             rng.choice([0, 10, buf, 3 * buf, 10 * buf])
-        parts.append(dict(name='n%d' % i, filename=('f%d.bin' % i) if is_file else None, size=size,
+        parts.append(dict(name='n%d' % (i if rng.random() < 0.7 else rng.randrange(2)),
+                          filename=('f%d.bin' % i) if is_file else None, size=size,
                           pad=rng.choice([0, 0, 0, 3, 30])))
     c = dict(kind='budget', parts=parts, buf=buf, via=rng.choice(['iter_items', 'iter_items', 'wsgi']))
     if c['via'] == 'wsgi':
         c['conf'] = rng.choice(['ctor', 'setup', 'setup_over'])
+        c['sched'] = rng.choice([[], [0, 3, 1] * 40, [6] * 200])      # the multipart body itself arrives fragmented
     # steer half of the cases to the edge: threshold = exact need + {-1, 0, +1}
     if rng.random() < 0.5:
         _, triples = build_multipart(parts)
@@ -162,8 +191,41 @@ def gen_budget(rng):
     return c
 
 
+def gen_seq(rng):
+    """3..7 requests (raw bodies, form texts, multipart forms) served by two shared application objects with
+    different limits, interleaved: 413 / 200 / 400 in any order"""
+    apps = [[rng.choice(['ctor', 'setup', 'setup_over']), rng.choice([4, 8, 12]), rng.choice([None, 5, 20])],
+            [rng.choice(['ctor', 'setup']), rng.choice([5, 9, 60]), rng.choice([None, 0, 7, 30])]]
+    items = []
+    for _ in range(rng.randrange(3, 8)):
+        k = rng.randrange(2)
+        while True:
+            it = gen_body(rng, rng.choice(['body', 'body', 'text']))
+            if it['via'] not in ('func', 'request'):
+                break
+        conf, buf, maxb = apps[k]
+        # re-size the case for its application's configuration
+        size = min(it['payload_len'], 60)
+        payload = bytes(it['data'][:0]) + (b'k=' + b'v' * size)[:size] if it['kind'] == 'text' and it['ctype'] != 'json' \
+            else (b'{"a":"' + b'j' * max(size - 8, 0) + b'"}' if it['kind'] == 'text' else bytes(range(48, 48 + size)))
+        if it['chunked']:
+            data, layout = chunk_encode(rng, payload, max(buf, 3))
+            if any(e - b > buf for b, e, _ in layout):
+                it['chunked'], data, layout = False, payload, None
+        else:
+            data, layout = payload, None
+        it.update(buf=buf, maxb=maxb, data=list(data), layout=layout, payload_len=len(payload), conf=conf,
+                  cl=-1 if it['chunked'] else len(payload), expect='exact', sched=gen_sched(rng, len(data)), app=k)
+        it.pop('pre', None)
+        items.append(it)
+    return dict(kind='seq', apps=apps, items=items)
+
+
 def gen(rng, n):
     for i in range(n):
+        if i % 25 == 17:
+            yield gen_seq(rng)
+            continue
         r = i % 10
         if r < 5:
             yield gen_body(rng, 'body')
@@ -219,6 +281,36 @@ def corpus():
     for via in ('iter_items', 'wsgi'):
         out.append(dict(kind='budget', parts=big_file, buf=200, via=via))
         out.append(dict(kind='budget', parts=big_file, buf=150, via=via))
+    # audit round: the Request object used directly (with / without errors_map), earlier reads and copies, JSON through
+    # forms, fragmented multipart bodies with repeated names, the default configuration at its 100 KiB threshold
+    for rconf in ('default_config', 'raw_dict'):
+        out.append(dict(_body(d[:10], 10, 4, 5, via='request'), rconf=rconf))
+        out.append(dict(_body(d[:5], 5, 4, 5, via='request'), rconf=rconf))
+        out.append(dict(_body((b'k=' + b'v' * 9)[:9], 9, 8, None, via='request', kind='text', ctype='urlencoded'),
+                        rconf=rconf, inner='gbs'))
+        out.append(dict(_body((b'k=' + b'v' * 9)[:8], 8, 8, None, via='request', kind='text', ctype='urlencoded'),
+                        rconf=rconf, inner='forms'))
+    for pre in (['body_first'], ['copy_after'], ['second'], ['body_first', 'copy_after']):
+        out.append(dict(_body(d[:9], 9, 8, None, via='wsgi'), pre=pre))
+        out.append(dict(_body((b'k=' + b'v' * 9)[:8], 8, 8, None, via='gbs', kind='text', ctype='urlencoded'), pre=pre))
+        out.append(dict(_body((b'k=' + b'v' * 9)[:9], 9, 8, None, via='forms', kind='text', ctype='urlencoded'), pre=pre))
+    out.append(dict(_body(b'{"a":"jj"}', 10, 10, None, via='forms', kind='text', ctype='json'), inner='forms_json'))
+    out.append(dict(_body(b'{"a":"jjj"}', 11, 10, None, via='forms', kind='text', ctype='json'), inner='forms_json'))
+    twins = [dict(name='a', filename=None, size=5, pad=0), dict(name='a', filename=None, size=3, pad=0),
+             dict(name='f', filename='x.bin', size=100, pad=0), dict(name='f', filename='y.bin', size=0, pad=0)]
+    for b_, sc in ((400, [0, 3, 1] * 200), (150, []), (400, [6] * 400)):
+        out.append(dict(kind='budget', parts=twins, buf=b_, via='wsgi', sched=sc))
+    seq_items = []
+    for k, (n_, app_i) in enumerate([(10, 1), (3, 0), (10, 0), (5, 1), (6, 1), (26, 0), (0, 1)]):
+        it = _body(d[:n_], n_, 4, 5 if app_i else None, via='wsgi')
+        it.update(conf='setup' if app_i else 'ctor', app=app_i)
+        seq_items.append(it)
+    out.append(dict(kind='seq', apps=[['ctor', 4, None], ['setup', 4, 5]], items=seq_items))
+    big = bytes(i % 251 for i in range(DEFAULT_MEMFILE + 1))
+    for n_ in (DEFAULT_MEMFILE, DEFAULT_MEMFILE + 1):
+        out.append(dict(_body(big[:n_], n_, DEFAULT_MEMFILE, None, via='wsgi', sched=[4999] * 30), conf='default'))
+    out.append(dict(_body(b'k=' + b'v' * (DEFAULT_MEMFILE - 1), DEFAULT_MEMFILE + 1, DEFAULT_MEMFILE, None, via='gbs',
+                          kind='text', ctype='urlencoded'), conf='default'))
     # applications configured through app.setup(): 413 / 400 must still be mapped (seeded change C05/change6)
     for conf in ('setup', 'setup_over'):
         out.append(dict(_body(d[:10], 10, 4, 5, via='wsgi'), conf=conf))
@@ -302,8 +394,12 @@ def access(rq, case, seen):
         seen['stable'] = c1 == rq.body.read()
         return c1
     if case['kind'] == 'budget':
-        f = rq.forms
-        files = rq.files
+        if len(case['parts']) % 2:
+            files = rq.files                     # Request.files before Request.forms
+            f = rq.forms
+        else:
+            f = rq.forms
+            files = rq.files
         seen['n'] = count_items(f) + count_items(files)
         lens, types = [], set()
         for v in files.values():
@@ -315,6 +411,9 @@ def access(rq, case, seen):
                     if not blk:
                         break
                     total += len(blk)
+                fu.file.seek(0)
+                if len(fu.file.read()) != total:        # read() without a size: the rest of the window
+                    total = -1
                 lens.append(total)
         seen['file_lens'] = sorted(lens)
         seen['file_types'] = sorted(types)
@@ -457,13 +556,29 @@ def run_impl(case):
     return call_wsgi(app, holder, case, st, CTYPES[case.get('ctype')])
 
 
+def raw_config(case):
+    """a Request used directly with a plain-dict config: no errors_map, the bare exceptions escape"""
+    return case.get('via') == 'request' and case.get('rconf') == 'raw_dict'
+
+
+def is_gbs(case):
+    return case['via'] == 'gbs' or case.get('inner') == 'gbs'
+
+
 def encode(case):
+    if case['kind'] == 'seq':
+        out = [3]
+        for it in case['items']:
+            e = encode(it)
+            out += [len(e)] + e
+        return out
     if case['kind'] == 'budget':
         # the model gets the raw body and boundary: it runs its own scanner (MultipartRef.ref), header
         # parser and FieldStorage model (Fields.iter_items); nothing is taken from the implementation
         body, _ = build_multipart(case['parts'])
         return [2, case['buf']] + enc_str(b'BnD') + enc_str(body)
-    return ([0 if case['kind'] == 'body' else 1, case['cl'], 1 if case['chunked'] else 0, case['buf'],
+    mode = (0 if case['kind'] == 'body' else 1) + (4 if raw_config(case) else 0)
+    return ([mode, case['cl'], 1 if case['chunked'] else 0, case['buf'],
              0 if case['maxb'] is None else 1, case['maxb'] or 0]
             + enc_str(case['data']) + enc_list(case['sched'], lambda k: [k]))
 
@@ -474,7 +589,16 @@ def _st(code):
 
 def decode(out, case):
     r = Reader(out)
+    if case['kind'] == 'seq':
+        obs = []
+        for it in case['items']:
+            n = r.int()
+            sub = r.a[r.i:r.i + n]
+            r.i += n
+            obs.append(decode(sub, it))
+        return dict(kind='seq', items=obs)
     tag = r.int()
+    escaped = 'bare_error' if raw_config(case) else 'http_500'
     if case['kind'] == 'budget':
         if tag == 0:
             return dict(status='ok', n=r.int())
@@ -497,12 +621,12 @@ def decode(out, case):
             reqs = r.list(lambda q: [q.int(), q.int()])
             return dict(status=_st(code), reqs=reqs, pos=r.int())
         reqs = r.list(lambda q: [q.int(), q.int()])
-        return dict(status='http_500', reqs=reqs, pos=r.int())
+        return dict(status=escaped, reqs=reqs, pos=r.int())
     # text
     if tag == 0:
         text = r.str()
         r.list(lambda q: [q.int(), q.int()])
-        if case['via'] == 'gbs':
+        if is_gbs(case):
             return dict(status='ok', text=text, pos=r.int())
         return dict(status='ok', pos=r.int())
     if tag == 1:
@@ -510,16 +634,19 @@ def decode(out, case):
         r.list(lambda q: [q.int(), q.int()])
         return dict(status=_st(code), pos=r.int())
     r.list(lambda q: [q.int(), q.int()])
-    return dict(status='http_500', pos=r.int())
+    return dict(status=escaped, pos=r.int())
 
 
 def project(obs, case):
+    if case['kind'] == 'seq':
+        return dict(kind='seq', items=[project(o, it) for o, it in zip(obs.get('items', []), case['items'])]) \
+            if 'items' in obs else obs
     if case['kind'] == 'budget':
         o = {k: v for k, v in obs.items() if k in ('status', 'n')}
         if case['via'] == 'wsgi' and o.get('status') != 'ok':
             o.pop('n', None)
         return o
-    if case['kind'] == 'text' and case['via'] == 'forms':
+    if case['kind'] == 'text' and not is_gbs(case):
         return {k: v for k, v in obs.items() if k != 'parsed_len'}
     return obs
 
@@ -538,14 +665,19 @@ def payload_bytes_before(case, pos):
 
 
 def oracle(case, obs):
+    if case['kind'] == 'seq':
+        for i, (it, o) in enumerate(zip(case['items'], obs.get('items') or [])):
+            f = oracle(it, o)
+            if f:
+                return 'request %d of a sequence on shared application objects: %s' % (i, f)
+        if len(obs.get('items') or []) != len(case['items']):
+            return 'sequence not completed: %s' % (obs,)
+        return None
     st = obs.get('status')
+    if raw_config(case) and st == 'bare_error':
+        st = 'too_large' if case.get('expect') != 'any' else 'parse_error'   # no errors_map: the bare exception
     if case['kind'] == 'budget':
-        tr = obs.get('triples')
-        if tr is None:
-            return 'multipart body not marked up: %s' % (obs,)
         _, mine = build_multipart(case['parts'])
-        if [list(t) for t in tr] != mine:
-            return 'harness: header/data sizes %s differ from the generated %s' % (tr, mine)
         need = sum(h + (0 if f else d) for h, d, f in mine)
         if need > case['buf']:
             if st == 'http_500':
@@ -561,10 +693,13 @@ def oracle(case, obs):
             return '%s of %d parts delivered' % (obs.get('n'), len(case['parts']))
         if obs.get('file_types') not in (None, [], ['BytesIOProxy']):
             return 'file part held as %s' % obs['file_types']
+        want = sorted(p['size'] for p in case['parts'] if p['filename'] is not None)
+        if obs.get('file_lens') is not None and obs['file_lens'] != want:
+            return 'uploads read block-wise have %s bytes, submitted %s' % (obs['file_lens'], want)
         return None
 
     buf, maxb, size = case['buf'], case['maxb'], case['payload_len']
-    if st not in ('ok', 'too_large') and not (st == 'parse_error' and case['expect'] == 'any'):
+    if st not in ('ok', 'too_large') and not (st == 'parse_error' and case['expect'] in ('any', 'reject')):
         return 'unexpected outcome %s' % (obs,)
     if case['kind'] == 'body':
         for n, p in obs['reqs']:
@@ -572,6 +707,8 @@ def oracle(case, obs):
                 return 'read(%d) larger than the buffer %d' % (n, buf)
         if case['expect'] == 'any':
             return None
+        if case['expect'] == 'reject':
+            return 'malformed chunked body accepted (%d bytes)' % len(obs['body']) if st == 'ok' else None
         if maxb is not None and size > maxb:
             if st != 'too_large':
                 return 'body of %d bytes accepted although max_body_size=%d' % (size, maxb)
@@ -613,6 +750,8 @@ def oracle(case, obs):
 
 
 def nontrivial(case, obs):
+    if case['kind'] == 'seq':
+        return len(case['items']) >= 3 and len(set(o.get('status') for o in obs.get('items', []))) >= 2
     if case['kind'] == 'budget':
         return len(case['parts']) >= 2
     size, buf, maxb = case['payload_len'], case['buf'], case['maxb']
@@ -627,18 +766,29 @@ def key(case):
 
 
 def classify(case, obs):
+    if case['kind'] == 'seq':
+        return 'seq/%d requests/%s' % (len(case['items']), '+'.join(sorted(set(str(o.get('status'))
+                                                                             for o in obs.get('items', [])))))
     if case['kind'] == 'budget':
         return 'budget/%s%s/%s' % (case['via'], '+' + case['conf'] if case.get('conf', 'ctor') != 'ctor' else '',
                                    obs.get('status'))
     size, buf, maxb = case['payload_len'], case['buf'], case['maxb']
     rel = 'nolimit' if maxb is None else 'size<limit' if size < maxb else 'size=limit' if size == maxb else \
         'size<=limit+buf' if size <= maxb + buf else 'size>limit+buf'
-    via = case['via'] + ('+' + case['conf'] if case.get('conf', 'ctor') != 'ctor' else '')
+    via = case['via'] + ('+' + case['conf'] if case.get('conf', 'ctor') != 'ctor' else '') + (
+        '+' + case['rconf'] if case.get('rconf') else '') + ('+pre' if case.get('pre') else '') + (
+        '+' + case['inner'] if case.get('inner') else '')
     return '%s/%s/%s/%s/%s/%s' % (case['kind'], via, 'chunked' if case['chunked'] else 'cl', rel,
                                   'spill' if size > buf else 'mem', obs.get('status'))
 
 
 def shrink(case):
+    if case['kind'] == 'seq':
+        its = case['items']
+        for i in range(len(its)):
+            if len(its) > 1:
+                yield dict(case, items=its[:i] + its[i + 1:])
+        return
     if case['kind'] == 'budget':
         p = case['parts']
         for i in range(len(p)):
